@@ -10,7 +10,7 @@ import sys
 PROP = "C07"
 RULE = ("frames x cuttings: structured streams of encoded frames (payload lengths 0,1,7,8,9,2047..2049,65534,65535), "
         "bad-magic and truncated streams, random and exhaustive cuttings into reads, random send/flush scripts with "
-        "partial writes and EAGAIN, handshake deliveries cut at every position with NUL-free noise; a case is "
+        "partial writes and EAGAIN, an end-of-stream read or read error after every sampled stream (implementation only), handshake deliveries cut at every position with NUL-free noise; a case is "
         "non-trivial when it contains at least one complete frame or one cut inside a header/sync string; distinct by content hash")
 TRUSTED_BASE = [
     "modelled, not verified: CPython struct.pack/unpack('!ccHHH'), bytes slicing, list.append; raw socket-file read(n) returns 1..n bytes (b'' at EOF), non-blocking write returns None/0..len",
